@@ -64,7 +64,7 @@ static map_elem *hashmap_entry_find(const m_map_t *m, const char *key, bool find
     size_t index = hashmap_calc_index(m, key);
     
     /* Linear probing */
-    for (size_t i = 0; i < probe_len; i++) {
+    for (size_t i = 0; i < probe_len; i++) M_VERIF_LOOP(map_find) {
         map_elem *entry = &m->table[index];
         if (!entry->key) {
             if (find_empty) {
@@ -226,7 +226,7 @@ static void clear_elem(m_map_t *m, map_elem *removed_entry) {
     size_t removed_index = (removed_entry - m->table);
     size_t index = MAP_PROBE_NEXT(m, removed_index);
     /* Walk the whole chain that follows the removed slot, up to its end */
-    for (size_t i = 1; i < m->table_size; i++) {
+    for (size_t i = 1; i < m->table_size; i++) M_VERIF_LOOP(map_shift) {
         map_elem *entry = &m->table[index];
         if (!entry->key) {
             /* Reached end of chain */
@@ -296,7 +296,7 @@ _public_ int m_map_itr_next(m_map_itr_t **itr) {
     
     i->removed = false;
     bool found = false;
-    for (; i->curr < &i->m->table[i->m->table_size]; i->curr++) {
+    for (; i->curr < &i->m->table[i->m->table_size]; i->curr++) M_VERIF_LOOP(map_itr_scan) {
         if (i->curr->key) {
             found = true;
             break;
